@@ -198,6 +198,22 @@ def run(ctx):
     except Exception as e:  # noqa
         res["hist"]["short_baseline_unavailable:" + type(e).__name__] = 1
         base_obj_short = None
+    # the CalTRACK hourly method: the same week of readings handed over twice, once stamped in the site's zone and once in UTC (the same
+    # instants), and another week — each prediction is that of a fresh copy of the model whatever was predicted before
+    ct_b = None
+    try:
+        from opendsm.eemeter.models.hourly_caltrack.wrapper import HourlyModel as CTModel
+        from opendsm.eemeter.models.hourly_caltrack.data import HourlyBaselineData as CTB2, HourlyReportingData as CTR2
+        ct_year = synth_hourly(days=365, seed=5)
+        ct_b = CTB2(ct_year, is_electricity_data=True)
+        wk = synth_hourly(days=365, seed=9).loc["2021-05-25":].iloc[:24 * 14]
+        ct_sets = {"late_may_local": CTR2(wk.copy(), is_electricity_data=True),
+                   "late_may_utc_stamps": CTR2(wk.tz_convert("UTC"), is_electricity_data=True),
+                   "january_week": CTR2(synth_hourly(days=365, seed=9).loc["2021-01-11":].iloc[:24 * 7], is_electricity_data=True)}
+        families.append(("caltrack_hourly", lambda: quiet(CTModel().fit, ct_b), CTModel, ct_sets, {}))
+    except Exception as e:  # noqa
+        res["hist"]["caltrack_family_unavailable:" + type(e).__name__] = 1
+        ct_b = None
     other_fit = [lambda: quiet(DailyModel(model="legacy").fit, DailyBaselineData(synth_daily(seed=11), is_electricity_data=True)),
                  lambda: quiet(DailyModel, settings={"weekday_weekend": {"friday": "weekend"}}),
                  lambda: quiet(BillingModel)]
@@ -208,7 +224,7 @@ def run(ctx):
         return ([getattr(w, "qualified_name", str(w)) for w in getattr(obj, "warnings", [])],
                 [getattr(w, "qualified_name", str(w)) for w in getattr(obj, "disqualification", [])])
 
-    base_obj = dict(daily=daily_b, billing=bill_b, hourly=hour_b, hourly_short_baseline=base_obj_short)
+    base_obj = dict(daily=daily_b, billing=bill_b, hourly=hour_b, hourly_short_baseline=base_obj_short, caltrack_hourly=ct_b)
     for fam, mkfit, cls, sets, kw in families:
         base_lists0 = lists_of(base_obj[fam])
         try:
@@ -235,6 +251,11 @@ def run(ctx):
                 hist = ["year_1", "year_2_other_autumn_shape", "year_1"]
             if fam == "hourly" and hno == 1:
                 hist = ["july_week_with_ghi", "july_week", "july_week_with_ghi"]
+            if fam == "caltrack_hourly":
+                if hno > 1 and not thorough:
+                    break
+                hist = (["late_may_local", "late_may_utc_stamps", "january_week", "late_may_local"] if hno == 0 else
+                        ["late_may_utc_stamps", "late_may_local", "late_may_utc_stamps"] if hno == 1 else hist)
             trace = []
             for step, k in enumerate(hist):
                 if rng.random() < 0.35:
